@@ -188,7 +188,11 @@ func solveAll(fes []*FE, outDir string, timeout, workers int, second bool) {
 				mu.Unlock()
 				file := filepath.Join(outDir, sanitize(j.ob.Name)+"_"+h[:10]+".smt2")
 				os.WriteFile(file, []byte(text), 0o644)
-				r := race(file, timeout, "")
+				to := timeout
+				if j.ob.Smoke {
+					to = 2
+				}
+				r := race(file, to, "")
 				j.ob.Result, j.ob.Solver, j.ob.Seconds, j.ob.File = r.res, r.solver, r.secs, file
 				if r.res == "sat" {
 					j.ob.Model = r.out
